@@ -71,6 +71,47 @@ theorem enumRule_okP (c c0 : Cur) (en : Str) (ns : List Str) (post : Str) (Q : C
   simp only [bind, pbind, hb, hk, cut, hnm, hs2, hbr, hmany1, hle, hs6, hcl, hend9, pure, ppure, plainEnumBp, joinBefore]
   rfl
 
+/-- the sticky-note rule once its keyword - in whatever letter case - has been read -/
+theorem stickyNoteRule_from (c c0 c1 : Cur) (n0 : Char) (ns t post : Str) (Q : Cur → Prop)
+    (hb : cBefore c = .ok [] c0) (hk : clit "note" c0 = .ok () c1)
+    (hr1 : c1.rest = ' ' :: ((n0 :: ns) ++ ' ' :: '{' :: '\n' :: ' ' :: ' ' :: ' ' :: ' ' ::
+      '\'' :: (prepareTextForDbml t ++ '\'' :: '\n' :: '}' :: post))) (hp1 : c1.pastEnd = false)
+    (hname : (n0 :: ns).all isNameChar = true)
+    (h1 : C13.oneLine t = true) (h3 : hasTriple t = false)
+    (hend : ∀ c7 : Cur, c7.rest = post → c7.pastEnd = false → ∃ c9, endRule c7 = .ok () c9 ∧ Q c9) :
+    ∃ c9, stickyNoteRule c = .ok { name := n0 :: ns, text := t } c9 ∧ Q c9 := by
+  have hn0 : isNameChar n0 = true := by simp only [List.all_cons, Bool.and_eq_true] at hname; exact hname.1
+  obtain ⟨hn0w, hn0n, hn0s⟩ := nameChar_facts n0 hn0
+  have hN1 : Next c1 n0 _ := skipWs_rest_spaces c1 1 n0 _ (by rw [hr1]; rfl) hn0w
+  obtain ⟨q3, q4⟩ := quiet_of_next c1 n0 _ hN1 hn0n hn0s
+  have hs1 : skipNl c1 = .ok () c1 := skipNl_stay c1 q3 q4
+  obtain ⟨c2, hnm, hr2, hp2⟩ := name_ok c1 (n0 :: ns) _ hN1 (by simp) hname
+    (by intro x hx; simp at hx; subst hx; decide) hp1
+  have hN2 : Next c2 '{' _ := skipWs_rest_spaces c2 1 '{' _ (by rw [hr2]; rfl) (by decide)
+  obtain ⟨q5, q6⟩ := quiet_of_next c2 '{' _ hN2 (by decide) (by decide)
+  have hs2 : skipNl c2 = .ok () c2 := skipNl_stay c2 q5 q6
+  obtain ⟨c3, hbr, hr3, hp3⟩ := sym_ok "{" '{' rfl c2 _ hN2 hp2
+  have hN3 : Next c3 '\n' _ := skipWs_rest_head c3 '\n' _ hr3 (by decide)
+  obtain ⟨c4, hs3, hr4, hp4⟩ := skipNl_one c3 _ hN3 hp3 (by
+    intro d hd _
+    have : Next d '\'' (prepareTextForDbml t ++ '\'' :: '\n' :: '}' :: post) :=
+      skipWs_rest_spaces d 4 '\'' _ (by rw [hd]; rfl) (by decide)
+    exact quiet_of_next d '\'' _ this (by decide) (by decide))
+  have hN4 : (skipWs c4).rest = '\'' :: (prepareTextForDbml t ++ '\'' :: '\n' :: '}' :: post) :=
+    skipWs_rest_spaces c4 4 '\'' _ (by rw [hr4]; rfl) (by decide)
+  obtain ⟨c5, hstr, hr5, hp5⟩ := stringLiteral_ok c4 t ('\n' :: '}' :: post) hN4 hp4 h1 h3 (Or.inr (by simp))
+  have hN5 : Next c5 '\n' ('}' :: post) := skipWs_rest_head c5 '\n' _ hr5 (by decide)
+  obtain ⟨c6, hs5, hr6, hp6⟩ := skipNl_one c5 ('}' :: post) hN5 hp5 (by
+    intro d hd _
+    have : Next d '}' post := skipWs_rest_head d '}' _ hd (by decide)
+    exact quiet_of_next d '}' _ this (by decide) (by decide))
+  have hN6 : Next c6 '}' post := skipWs_rest_head c6 '}' _ hr6 (by decide)
+  obtain ⟨c7, hcl, hr7, hp7⟩ := sym_ok "}" '}' rfl c6 _ hN6 hp6
+  obtain ⟨c9, hend9, hQ⟩ := hend c7 hr7 hp7
+  refine ⟨c9, ?_, hQ⟩
+  unfold stickyNoteRule
+  simp only [bind, pbind, hb, hk, hs1, hnm, hs2, cut, hbr, hs3, hstr, hs5, hcl, hend9, pure, ppure]
+
 /-- an enum: a quoted name and its items -/
 abbrev ESpec := Str × List Str
 
@@ -129,35 +170,7 @@ theorem stickyNoteRule_okP (c c0 : Cur) (name t post : Str) (Q : Cur → Prop)
   have hN : Next c0 'N' _ := skipWs_rest_head c0 'N' _ (by rw [hc]) (by decide)
   obtain ⟨c1, hk, hr1, hp1⟩ := clit_ok "note" c0 ['N', 'o', 't', 'e'] _ hN
     (by decide) (by simp [startsWithCaseless]; decide) hp
-  have hN1 : Next c1 n0 _ := skipWs_rest_spaces c1 1 n0 _ (by rw [hr1]; rfl) hn0w
-  obtain ⟨q3, q4⟩ := quiet_of_next c1 n0 _ hN1 hn0n hn0s
-  have hs1 : skipNl c1 = .ok () c1 := skipNl_stay c1 q3 q4
-  obtain ⟨c2, hnm, hr2, hp2⟩ := name_ok c1 (n0 :: ns) _ hN1 (by simp) hname
-    (by intro x hx; simp at hx; subst hx; decide) hp1
-  have hN2 : Next c2 '{' _ := skipWs_rest_spaces c2 1 '{' _ (by rw [hr2]; rfl) (by decide)
-  obtain ⟨q5, q6⟩ := quiet_of_next c2 '{' _ hN2 (by decide) (by decide)
-  have hs2 : skipNl c2 = .ok () c2 := skipNl_stay c2 q5 q6
-  obtain ⟨c3, hbr, hr3, hp3⟩ := sym_ok "{" '{' rfl c2 _ hN2 hp2
-  have hN3 : Next c3 '\n' _ := skipWs_rest_head c3 '\n' _ hr3 (by decide)
-  obtain ⟨c4, hs3, hr4, hp4⟩ := skipNl_one c3 _ hN3 hp3 (by
-    intro d hd _
-    have : Next d '\'' (prepareTextForDbml t ++ '\'' :: '\n' :: '}' :: post) :=
-      skipWs_rest_spaces d 4 '\'' _ (by rw [hd]; rfl) (by decide)
-    exact quiet_of_next d '\'' _ this (by decide) (by decide))
-  have hN4 : (skipWs c4).rest = '\'' :: (prepareTextForDbml t ++ '\'' :: '\n' :: '}' :: post) :=
-    skipWs_rest_spaces c4 4 '\'' _ (by rw [hr4]; rfl) (by decide)
-  obtain ⟨c5, hstr, hr5, hp5⟩ := stringLiteral_ok c4 t ('\n' :: '}' :: post) hN4 hp4 h1 h3 (Or.inr (by simp))
-  have hN5 : Next c5 '\n' ('}' :: post) := skipWs_rest_head c5 '\n' _ hr5 (by decide)
-  obtain ⟨c6, hs5, hr6, hp6⟩ := skipNl_one c5 ('}' :: post) hN5 hp5 (by
-    intro d hd _
-    have : Next d '}' post := skipWs_rest_head d '}' _ hd (by decide)
-    exact quiet_of_next d '}' _ this (by decide) (by decide))
-  have hN6 : Next c6 '}' post := skipWs_rest_head c6 '}' _ hr6 (by decide)
-  obtain ⟨c7, hcl, hr7, hp7⟩ := sym_ok "}" '}' rfl c6 _ hN6 hp6
-  obtain ⟨c9, hend9, hQ⟩ := hend c7 hr7 hp7
-  refine ⟨c9, ?_, hQ⟩
-  unfold stickyNoteRule
-  simp only [bind, pbind, hb, hk, hs1, hnm, hs2, cut, hbr, hs3, hstr, hs5, hcl, hend9, pure, ppure]
+  exact stickyNoteRule_from c c0 c1 n0 ns t post Q hb hk hr1 hp1 hname h1 h3 hend
 
 /-- a sticky note the round trip covers: a bare name and one plain normalised line without a triple quote -/
 def StickyOK (s : Sticky) : Prop :=
